@@ -30,6 +30,7 @@ def run(R):
     R.rule("C01.pure", "the extraction subgraph has no write through its arguments and no interior mutability: a row is a function of "
                        "(definition, this line)")
     exf = R.need_fn(EXTRACT)
+    pin = R.need_fn("sqlgrep::data_model::ParsingInput::new")
     reach = P.reachable([exf])
     # ---- index provenance
     eur = R.need_fn(EUR)
@@ -80,7 +81,6 @@ def run(R):
                     R.violation("C01.api", "TableDefinition::new|" + sn.split("::")[-1],
                                 "table patterns are compiled through %s: builder options (crlf, case_insensitive, multi_line, ...) change which text a "
                                 "group captures" % sn, [c.loc()])
-    pin = R.need_fn("sqlgrep::data_model::ParsingInput::new")
     sp = [c for c in pin.calls if short(c.name) == "regex::regex::string::Regex::split"]
     ad = [c for c in pin.calls if re.search(r"Iterator::(take|skip|step_by|filter|rev|take_while|skip_while)$", short(c.name))]
     if sp and not ad:
@@ -89,6 +89,7 @@ def run(R):
         R.violation("C01.api", "ParsingInput::new|split-adapter", "the split fields are filtered/limited by %s" % short(ad[0].name), [ad[0].loc()])
     if n_api < 4:
         R.violation("C01.api", "count", "fewer regex API calls than expected in the extraction subgraph (%d)" % n_api, [exf.loc()])
+    total_paths(R, "C01.total")
     # ---- options read
     read_in = {}
     for k in sorted(reach):
@@ -203,3 +204,30 @@ def run(R):
     R.assume("regex::Regex::captures returns the leftmost match and its internal cache does not affect results; "
              "i64/f64/bool::from_str implement the literal grammars (std)")
     R.assume("array / TIMESTAMP assembly values and chrono's calendar validation are not decided (only positions, casts and options are)")
+
+
+def total_paths(R, rid):
+    """every line takes the same path: no exit of ParsingInput::new / TableDefinition::extract bypasses the pattern / column loop"""
+    exf = R.need_fn(EXTRACT)
+    pin = R.need_fn("sqlgrep::data_model::ParsingInput::new")
+    R.rule(rid, "every line (also an empty one) is matched against every pattern and every column: no return of ParsingInput::new or "
+                "TableDefinition::extract bypasses the loop over the table's patterns / columns (no input-dependent fast path)")
+    for fn_, what in ((pin, "patterns"), (exf, "columns")):
+        hdrs = []
+        for c in fn_.calls:
+            if short(c.name).endswith("Iterator>::next") and PR.loop_of(fn_, c.bb):
+                lp_ = PR.loop_of(fn_, c.bb)
+                hdrs.append(lp_[0])
+        outer = [h for h in hdrs if not any(h in body and h != h2 for h2, body in fn_.loops().items())]
+        nm = fn_.spath.split("::")[-2] + "::" + fn_.spath.split("::")[-1]
+        if not outer:
+            R.violation(rid, nm + "|no-loop", "%s has no loop over the table's %s" % (fn_.path, what), [fn_.loc()])
+            continue
+        good, badb = PR.all_paths_hit(fn_, 0, outer)
+        if good:
+            R.ok(rid, nm, "all paths pass the loop over the %s" % what, fn_.loc(outer[0]))
+        else:
+            R.violation(rid, nm + "|bypass",
+                        "%s can return without matching the line against the table's %s (an input-dependent fast path): such a line yields NULLs "
+                        "although a pattern matches it (e.g. the empty line and `(.*)`), i.e. the line never reaches the query"
+                        % (fn_.path, what), [fn_.loc(badb)])
